@@ -212,8 +212,31 @@ def r1_c(repo, chk):
     # first byte and to the packet-number bytes
     import re
 
+    _crole: dict = {}  # C local of the function under inspection -> the role name the obligations are written in
+
+    def _rn(t):
+        for a, b in _crole.items():
+            t = re.sub(r"\b%s\b" % re.escape(a), b, t)
+        return t
+
     def sq(n):
-        return re.sub(r"\s+", "", ctext(strip(n)))
+        return _rn(re.sub(r"\s+", "", ctext(strip(n))))
+
+    def _roles(fn, first_byte):
+        """the local holding the packet-number length is the one initialised with (<first byte> & 3) + 1, the one
+        holding its offset the one initialised with header_len - <that>: whatever they are called"""
+        m = {}
+        decls = [d for d in cq.preorder(cq.body(fn)) if d.get("kind") == "VarDecl" and cq.kids(d)]
+        for d in decls:
+            if re.sub(r"\s+", "", ctext(strip(cq.kids(d)[-1]))) == f"({first_byte}&3)+1":
+                m[d["name"]] = "pn_length"
+        for d in decls:
+            t = re.sub(r"\s+", "", ctext(strip(cq.kids(d)[-1])))
+            for a, b in m.items():
+                t = re.sub(r"\b%s\b" % re.escape(a), b, t)
+            if t == "header_len-pn_length":
+                m[d["name"]] = "pn_offset"
+        return {a: b for a, b in m.items() if a != b}
 
     fields = {}
     for n in cu.tu.get("inner", []):
@@ -237,8 +260,10 @@ def r1_c(repo, chk):
     chk.ob("R1", "HeaderProtection_mask: the ChaCha20 counter and nonce are the sample", len(inits) == 1, "", cu.loc(mk))
     for fname, sample_want, buf_src in (("HeaderProtection_apply", "payload+4-pn_length", None), ("HeaderProtection_remove", "packet+pn_offset+4", None)):
         fn = cu.func(fname)
+        _crole.clear()
+        _crole.update(_roles(fn, "header[0]" if fname.endswith("apply") else "self->buffer[0]"))
         mcs = cq.calls(fn, "HeaderProtection_mask")
-        got_sample = re.sub(r"[\s()]+", "", cq.rtext(fn, cq.args(mcs[0])[1], keep=("pn_length", "pn_offset", "payload", "packet"))) if mcs else None
+        got_sample = _rn(re.sub(r"[\s()]+", "", cq.rtext(fn, cq.args(mcs[0])[1], keep=("pn_length", "pn_offset", "payload", "packet") + tuple(_crole)))) if mcs else None
         ok = len(mcs) == 1 and got_sample == sample_want
         chk.ob("R1", f"{fname}: the sample starts 4 bytes after the start of the packet number", ok, f"sample argument {got_sample}", cu.loc(fn))
         xs = [n for n in cq.preorder(cq.body(fn)) if n.get("kind") == "CompoundAssignOperator" and n.get("opcode") == "^="]
@@ -265,15 +290,20 @@ def r1_c(repo, chk):
                     good = True
         chk.ob("R1", f"{fname}: packet-number byte i is xored with mask[1 + i] for i < pn_length", good, "", cu.loc(fn))
     rm = cu.func("HeaderProtection_remove")
-    decls = [n for n in cq.preorder(cq.body(rm)) if n.get("kind") == "VarDecl" and n.get("name") == "pn_length"]
+    _crole.clear()
+    _crole.update(_roles(rm, "self->buffer[0]"))
+    decls = [n for n in cq.preorder(cq.body(rm)) if n.get("kind") == "VarDecl" and _crole.get(n.get("name"), n.get("name")) == "pn_length"]
     xs0 = [n for n in cq.preorder(cq.body(rm)) if n.get("kind") == "CompoundAssignOperator" and sq(cq.kids(n)[0]) == "self->buffer[0]"]
     order = list(cq.preorder(cq.body(rm)))
     ok = len(decls) == 1 and bool(xs0) and all(order.index(x) < order.index(decls[0]) for x in xs0) and sq(cq.kids(decls[0])[0]) == "(self->buffer[0]&3)+1"
     chk.ob("R1", "HeaderProtection_remove: the packet-number length is read from the first byte after it was unmasked", ok, "", cu.loc(rm))
     ap = cu.func("HeaderProtection_apply")
-    decls = [n for n in cq.preorder(cq.body(ap)) if n.get("kind") == "VarDecl" and n.get("name") == "pn_length"]
+    _crole.clear()
+    _crole.update(_roles(ap, "header[0]"))
+    decls = [n for n in cq.preorder(cq.body(ap)) if n.get("kind") == "VarDecl" and _crole.get(n.get("name"), n.get("name")) == "pn_length"]
     ok = len(decls) == 1 and sq(cq.kids(decls[0])[0]) == "(header[0]&3)+1"
     chk.ob("R1", "HeaderProtection_apply: the packet-number length is read from the plain first byte", ok, "", cu.loc(ap))
+    _crole.clear()
     chk.count("c_functions_inspected", ["AEAD_decrypt", "AEAD_encrypt", "HeaderProtection_mask", "HeaderProtection_apply", "HeaderProtection_remove"])
 
 
